@@ -133,6 +133,8 @@ fn tokenize_a2ml(filename: &Filename, input: &str) -> Result<(Vec<TokenType>, St
     let mut copypos = 0;
 
     while bytepos < datalen {
+        #[cfg(a2lfile_verif)]
+        crate::verif_hooks::tick();
         let startpos = bytepos;
         let c = input_bytes[bytepos];
 
@@ -263,6 +265,8 @@ fn tokenize_include(
     let mut fname_idx_start = 0;
     let fname_idx_end;
     loop {
+        #[cfg(a2lfile_verif)]
+        crate::verif_hooks::tick();
         let c = if *bytepos < datalen {
             input_bytes[*bytepos]
         } else {
@@ -411,6 +415,8 @@ pub(crate) fn parse_a2ml(
     // at the top level the applicable grammar rule is
     //    declaration = type_definition ";" | block_definition ";"
     while let Some(tok) = tok_iter.next() {
+        #[cfg(a2lfile_verif)]
+        crate::verif_hooks::tick();
         match tok {
             TokenType::Block => {
                 // the top level only _needs_ exactly one block.
@@ -544,6 +550,8 @@ fn parse_aml_type_enum(
     require_token_type(tok_iter, &TokenType::OpenCurlyBracket)?; // guaranteed to succeed
     let mut enumvalues = HashMap::new();
     loop {
+        #[cfg(a2lfile_verif)]
+        crate::verif_hooks::tick();
         let tag = require_tag(tok_iter)?;
         let mut token = nexttoken(tok_iter)?;
         /* optionally each enum item may include a constant. */
@@ -606,6 +614,8 @@ fn parse_aml_type_struct(
     let mut structdata = Vec::new();
 
     loop {
+        #[cfg(a2lfile_verif)]
+        crate::verif_hooks::tick();
         structdata.push(parse_aml_member(tok_iter, types)?);
         require_token_type(tok_iter, &TokenType::Semicolon)?;
 
@@ -653,6 +663,8 @@ fn parse_aml_type_taggedstruct(
     require_token_type(tok_iter, &TokenType::OpenCurlyBracket)?; // guaranteed to succeed
     let mut taggedstructdata = HashMap::new();
     loop {
+        #[cfg(a2lfile_verif)]
+        crate::verif_hooks::tick();
         let (itemname, itemdef) = parse_aml_taggedmember(tok_iter, types, true)?;
         taggedstructdata.insert(itemname, itemdef);
         require_token_type(tok_iter, &TokenType::Semicolon)?;
@@ -698,6 +710,8 @@ fn parse_aml_type_taggedunion(
     require_token_type(tok_iter, &TokenType::OpenCurlyBracket)?; // guaranteed to succeed
     let mut taggeduniondata = HashMap::new();
     loop {
+        #[cfg(a2lfile_verif)]
+        crate::verif_hooks::tick();
         let (itemname, itemdef) = parse_aml_taggedmember(tok_iter, types, false)?;
         taggeduniondata.insert(itemname, itemdef);
         require_token_type(tok_iter, &TokenType::Semicolon)?;
